@@ -215,6 +215,22 @@ def run(tier):
             parse_calls = [x for x, xt, xn, xtg in P.call_sites(pk) if "parser::parse" in xtg]
             parents = [x for x, xt, xn, xtg in P.call_sites(pk) if MU.callee_names(xt)[1] == "std::path::Path::parent"]
             always = bool(parse_calls) and any(all(G.dominates(idomp, x, pc) for pc in parse_calls) for x in parents)
+            # including is pasting: the function succeeds only after the file was read and its text parsed — no shortcut returns Ok before
+            # that (a file asked for twice is read twice)
+            early = []
+            for pc in parse_calls:
+                e_ = MU.result_edges(pb, pc)
+                okb_ = e_["ok"] if e_ else None
+                for bi_, bl_ in enumerate(pb["blocks"]):
+                    if bl_["cleanup"]:
+                        continue
+                    for st_ in bl_["stmts"]:
+                        if st_["k"] == "assign" and st_["place"]["local"] == 0 and not st_["place"]["proj"] and st_["rv"]["k"] == "agg" and st_["rv"]["kind"].get("vname") == "Ok":
+                            if okb_ is None or not G.dominates(idomp, okb_, bi_):
+                                early.append(loc_of(st_["span"]))
+            rep.ob("C11.paste|no-early-ok", bool(parse_calls) and not early,
+                   "parse_file_internal returns Ok only after the file's text went through the parser" if parse_calls and not early else
+                   "parse_file_internal can return Ok without having parsed the file (%s): an .include may contribute nothing — e.g. a file that is included a second time" % (early[:2] or "no parse call"))
             rep.ob("C11.search|own-directory|always", okp and always,
                    "the file's own directory is determined on every path to the nested parse (however the file was found)" if okp and always else
                    "the file's own directory is added to the search set only on some paths (e.g. only when the path exists as written): a file found through the include directories cannot include its siblings by bare name")
